@@ -137,6 +137,13 @@ def insitu_shard(shard, nshards, tier):
     w = vlib.Worker('xdrv', stderr_path=os.path.join(vlib.BUILD, 'tmp', 'c11i.%d.err' % shard))
     allc = [(fam, text, ast) for fam, text, ast in cases(tier) if fam in ('atom', 'step1', 'binop', 'func', 'unary', 'union', 'filter', 'abbrev')
             and "'" + '"' not in text]
+    # expressions that tell the CURRENT node from the context node (current() exists only inside a stylesheet): every entry point has
+    # to set both up
+    allc += [('current', t, None) for t in (
+        'current()', 'current()/@x', 'string(current())', 'number(current()/@x)', 'count(//*[name() = name(current())])', '//a[@x = current()/@x]',
+        'sum(//*[. = current()])', '//*[count(. | current()) = 1]/@x', 'count(//node()[generate-id() = generate-id(current())])',
+        '(//*[@x])[count(current()/preceding::*) + 1]/@x', 'string-length(current()) + count(current()/@*)', 'boolean(current()/self::a)',
+        'count(current()/ancestor-or-self::node())', '//b[. = current()/@x] | current()/@x', 'concat(name(current()), name())')]
     B = 40
     batches = [allc[i:i + B] for i in range(0, len(allc), B)]
     counts = {'insitu_observations': 0, 'insitu_transformations': 0, 'insitu_cases': 0}
